@@ -2,23 +2,23 @@
    packing, width schedule and CLEAR codes; the other codecs by differential). *)
 From Coq Require Import ZArith List Lia Bool.
 Import ListNotations.
-From LX Require Import Generated.Consts Model.Rle90 Proofs.Rle90Proofs Model.Lzw Proofs.LzwBitsProofs Proofs.LzwCodesProofs.
+From LX Require Import Generated.Consts Model.Rle90 Proofs.Rle90Proofs Model.Lzw Proofs.LzwBitsProofs Proofs.LzwCodesProofs Model.Crc Model.Inflate Proofs.InflateCodesProofs Proofs.InflateStreamProofs Proofs.InflateGzipProofs.
 Local Open Scope Z_scope.
 
 (* For every byte string - any length, any content, runs of any length, the marker byte itself anywhere - the RLE90
    decoder of ARC / Spark / ArcFS method 3 gives back exactly what the writer was given. *)
-Theorem rle90_decode_encode : forall l, decode (encode l) = l.
-Proof. exact decode_encode. Qed.
+Theorem rle90_decode_encode : forall l, Rle90.decode (Rle90.encode l) = l.
+Proof. exact Rle90Proofs.decode_encode. Qed.
 Print Assumptions rle90_decode_encode.
 
-Theorem rle90_encode_emits_bytes : forall l, Forall (fun b => 0 <= b <= 255) l -> Forall (fun b => 0 <= b <= 255) (encode l).
-Proof. exact encode_bytes. Qed.
+Theorem rle90_encode_emits_bytes : forall l, Forall (fun b => 0 <= b <= 255) l -> Forall (fun b => 0 <= b <= 255) (Rle90.encode l).
+Proof. exact Rle90Proofs.encode_bytes. Qed.
 Print Assumptions rle90_encode_emits_bytes.
 
 (* non-vacuity: markers, a run longer than one code can carry, a run of markers *)
 Example c08_nonvacuous :
   let l := [1; 144; 144; 144; 7] ++ repeat 9 600 ++ [144] in
-  Nat.ltb (length (encode l)) (length l) = true /\ decode (encode l) = l /\ firstn 6 (encode l) = [1; 144; 0; 144; 3; 7] /\ decode [5; 144; 4; 144; 0; 144; 2] = [5; 5; 5; 5; 144; 144].
+  Nat.ltb (length (encode l)) (length l) = true /\ Rle90.decode (Rle90.encode l) = l /\ firstn 6 (encode l) = [1; 144; 0; 144; 3; 7] /\ Rle90.decode [5; 144; 4; 144; 0; 144; 2] = [5; 5; 5; 5; 144; 144].
 Proof. vm_compute. repeat split; reflexivity. Qed.
 
 (* ---------------------------------------------------------------- compress (.Z) --------------------------------------- *)
@@ -59,4 +59,42 @@ Example c08_lzw_nonvacuous :
   Lzw.compress p [false; false; true] l = [31; 157; 140; 97; 2; 10; 4; 8; 0; 0; 0; 0; 98; 194; 4; 12; 8] /\
   uncompress (Lzw.compress p [false; false; true] l) = Some l /\
   uncompress [31; 157; 140; 97; 6; 10] = None.
+Proof. vm_compute. repeat split; reflexivity. Qed.
+
+(* ---------------------------------------------------------------- DEFLATE and the gzip member ------------------------- *)
+
+(* Any sequence of stored blocks (any bytes, up to 65535 each, at any bit position) and fixed-Huffman blocks (any literals and any
+   length / distance pairs with 3 <= length <= 258, 1 <= distance <= 32768 reaching back no further than what was produced, copies
+   overlapping their own output included), written by the model's writer: the format-level decoder gives back exactly what the
+   segments stand for. *)
+Theorem inflate_deflate : forall segs, segs_okb segs 0 = true -> inflate (deflate segs) = Some (rev (segs_expand segs [])).
+Proof. exact (inflate_deflate_from codes_spec expand_length enc_tokens_length). Qed.
+Print Assumptions inflate_deflate.
+
+(* ... and wrapped as a gzip member with any combination of the optional header fields (FEXTRA, FNAME, FCOMMENT, FHCRC), the
+   transcribed decrunch_gzip - header walk, inflate of everything but the last 8 bytes, CRC-32 and ISIZE checks - returns the payload *)
+Theorem gunzip_gzip_member : forall name comment extra hcrc segs,
+  segs_okb segs 0 = true ->
+  (forall n, name = Some n -> Forall (fun c => 1 <= c <= 255) n) -> (forall c, comment = Some c -> Forall (fun x => 1 <= x <= 255) c) ->
+  (forall e, extra = Some e -> Z.of_nat (length e) < 65536) ->
+  Z.of_nat (length (segs_expand segs [])) < 2 ^ 32 -> segs_expand segs [] <> [] ->
+  gunzip (gzip_member name comment extra hcrc segs) = Some (rev (segs_expand segs [])).
+Proof. exact (gunzip_gzip_member_from inflate_deflate). Qed.
+Print Assumptions gunzip_gzip_member.
+
+(* the writer's tokenizer is sound: its tokens are well-formed and stand for the data, so a Fixed segment of tokenize data carries data *)
+Theorem tokenizer_sound : forall fuel data out, bytesb data = true -> (length data <= fuel)%nat ->
+  tokens_okb (tokenize fuel data out) (Z.of_nat (length out)) = true /\ expand (tokenize fuel data out) out = rev_append data out.
+Proof. exact tokenize_sound. Qed.
+Print Assumptions tokenizer_sound.
+
+Example c08_inflate_nonvacuous :
+  let data := [97; 98; 99; 97; 98; 99; 97; 98; 99; 97; 98; 99; 120] in
+  let ts := tokenize 14 data [] in
+  let segs := [Stored [1; 2; 3]; Fixed (tokenize 14 data [3; 2; 1])] in
+  ts = [Lit 97; Lit 98; Lit 99; Match 9 3; Lit 120] /\ segs_okb segs 0 = true /\
+  rev (segs_expand segs []) = [1; 2; 3] ++ data /\
+  inflate (deflate segs) = Some ([1; 2; 3] ++ data) /\
+  gunzip (gzip_member (Some [115]) None None true segs) = Some ([1; 2; 3] ++ data) /\
+  inflate [3; 0] = Some [] /\ inflate [7; 0] = None.
 Proof. vm_compute. repeat split; reflexivity. Qed.
